@@ -111,6 +111,26 @@ def family_case(draw, tier):
                 # groups that formed independently are joined late, through members that are not the groups' first glyphs
                 where = [draw(st.sampled_from(outside)), fam_glyphs[-1]]
             links.append((lshape, ls, where, li))
+    def foreign(shape):
+        """An unrelated shape must not be an affine image of the family's (all triangles are, all 3-arc blobs are ...): the
+        reuse machinery would legitimately pick it as the donor and the statement's 'copies of a shape' would not apply."""
+        from picosvg.svg_reuse import normalize
+        from picosvg.svg_types import SVGPath
+
+        from ..gen_svg import cmds_to_d
+
+        try:
+            if normalize(SVGPath(d=cmds_to_d(shape)), 0.01).d != normalize(SVGPath(d=cmds_to_d(unit)), 0.01).d:
+                return shape
+        except Exception:
+            pass
+        k = 0.5522847498  # an ellipse (or, for an elliptic family, a rectangle) is never an affine image of the family
+        if any(c[0] == "C" for c in unit) and len(unit) == 6:
+            return [["M", -0.7, -0.4], ["L", 0.7, -0.4], ["L", 0.7, 0.4], ["L", -0.7, 0.4], ["Z"]]
+        return [["M", 0.8, 0], ["C", 0.8, 0.5 * k, 0.8 * k, 0.5, 0, 0.5], ["C", -0.8 * k, 0.5, -0.8, 0.5 * k, -0.8, 0], ["C", -0.8, -0.5 * k, -0.8 * k, -0.5, 0, -0.5], ["C", 0.8 * k, -0.5, 0.8, -0.5 * k, 0.8, 0], ["Z"]]
+
+    # (only shapes drawn before the family's first member, i.e. at the front of glyph 0, are kept out of its affine class: a
+    # look-alike that comes later must not disturb the sharing - that is the repaired defect F15)
     sources = []
     for gi in range(nglyph):
         nodes = []
@@ -120,14 +140,18 @@ def family_case(draw, tier):
                 nodes.append({"t": "p", "d": mem["cmds"], "fill": fill, "op": 1.0, "tag": "fam:" + mem["kind"], "angle": mem["angle"], "m": mem["m"]})
         for lshape, ls, where, li in links:
             if gi in where:
-                cm = transform_cmds(lshape, achain(scale(ls), translate(vb[0] + draw(st.floats(0.2, 0.8)) * vb[2], vb[1] + draw(st.floats(0.2, 0.8)) * vb[3])))
-                nodes.insert(draw(st.integers(0, len(nodes))), {"t": "p", "d": cm, "fill": {"k": "solid", "c": "#%06x" % draw(st.integers(0, 0xFFFFFF))}, "op": 1.0, "tag": "other"})
+                at = draw(st.integers(0, len(nodes)))
+                cm = transform_cmds(foreign(lshape) if gi == 0 and at == 0 else lshape, achain(scale(ls), translate(vb[0] + draw(st.floats(0.2, 0.8)) * vb[2], vb[1] + draw(st.floats(0.2, 0.8)) * vb[3])))
+                nodes.insert(at, {"t": "p", "d": cm, "fill": {"k": "solid", "c": "#%06x" % draw(st.integers(0, 0xFFFFFF))}, "op": 1.0, "tag": "other"})
         for _ in range(draw(st.integers(0, 2))):
             other = draw(unit_shape(("polygon", "rect", "cubic")))
+            at = draw(st.integers(0, len(nodes)))
+            if gi == 0 and at == 0:
+                other = foreign(other)
             s2 = draw(st.floats(0.05, 0.2)) * min(vb[2], vb[3])
             m2 = achain(scale(s2, s2 * draw(st.floats(0.5, 0.9))), rotate(draw(st.floats(-180, 180))), translate(vb[0] + draw(st.floats(0.2, 0.8)) * vb[2], vb[1] + draw(st.floats(0.2, 0.8)) * vb[3]))
             cm = transform_cmds(other, m2)
-            nodes.insert(draw(st.integers(0, len(nodes))), {"t": "p", "d": cm, "fill": draw(paint_st(palette, cmds_bbox(cm), p_grad=0.2)), "op": 1.0, "tag": "other"})
+            nodes.insert(at, {"t": "p", "d": cm, "fill": draw(paint_st(palette, cmds_bbox(cm), p_grad=0.2)), "op": 1.0, "tag": "other"})
         if not nodes:
             other = draw(unit_shape(("rect",)))
             cm = transform_cmds(other, achain(scale(size * 0.7, size * 0.4), translate(vb[0] + vb[2] / 2, vb[1] + vb[3] / 2)))
@@ -249,6 +273,28 @@ def judge(case):
     if fsize < 40 * cfg["reuse_tolerance"]:
         v.discard = "family smaller than 40x tolerance in font units"
         return v
+    # a shape outside the family that is an affine image of it (every triangle is one of every other) and is drawn first may
+    # legitimately become the donor of the family's members: "copies of a shape" no longer describes the input
+    from picosvg.svg_reuse import normalize as _norm
+    from picosvg.svg_types import SVGPath as _SP
+
+    from ..gen_svg import cmds_to_d as _d
+
+    try:
+        fkey = _norm(_SP(d=_d(fam[0]["d"])), 0.01).d
+        seen_family = False
+        for s_ in case["sources"]:
+            for p in model_paths(s_["model"]):
+                if p["tag"].startswith("fam:"):
+                    seen_family = True
+                elif not seen_family and _norm(_SP(d=_d(p["d"])), 0.01).d == fkey:
+                    # drawn before the family's first member it is the first candidate donor; after it, it must not matter
+                    v.discard = "a shape outside the family, drawn before it, is an affine image of it"
+                    return v
+            if seen_family:
+                break
+    except Exception:
+        pass
     # "unless the placing transform cannot be represented": 16.16 holds |x| < 32768. Which member becomes the donor is the
     # code's choice, so the case is only judged when the affine between *every* ordered pair of members (and its inverse,
     # needed for a gradient fill) fits; that includes everything up to the format's real limit.
